@@ -55,10 +55,13 @@ class Path:
     loop: int = 0
     assigned: Dict[str, int] = field(default_factory=dict)  # name -> number of assignments
     attrs: Dict[str, ast.AST] = field(default_factory=dict)  # self.attr values when expand_self=False
+    phi: Dict[str, ast.AST] = field(default_factory=dict)  # loop-carried name -> value on loop entry (phi=True)
+    phi_next: Dict[str, ast.AST] = field(default_factory=dict)  # loop-carried name -> value after one iteration, over the symbol itself
+    loopstack: List[Tuple[str, ...]] = field(default_factory=list)  # target names of the enclosing loops, innermost last
 
     def fork(self) -> "Path":
         p = Path(dict(self.env), list(self.guards), list(self.events), dict(self.loopvars),
-                 self.ret, self.ret_node, self.loop, dict(self.assigned), dict(self.attrs))
+                 self.ret, self.ret_node, self.loop, dict(self.assigned), dict(self.attrs), dict(self.phi), dict(self.phi_next), list(self.loopstack))
         return p
 
 
@@ -209,9 +212,10 @@ FALL, RET, BRK, CONT = "fall", "ret", "break", "continue"
 
 
 class Walker:
-    def __init__(self, func_node: ast.FunctionDef, max_paths: int = MAX_PATHS, loops_zero: bool = False, expand_self: bool = True, track_stores: bool = False):
+    def __init__(self, func_node: ast.FunctionDef, max_paths: int = MAX_PATHS, loops_zero: bool = False, expand_self: bool = True, track_stores: bool = False, phi: bool = False):
         self.expand_self = expand_self
         self.track_stores = track_stores
+        self.phi = phi
         self.fn = func_node
         self.max_paths = max_paths
         self.loops_zero = loops_zero
@@ -294,6 +298,120 @@ class Walker:
         else:
             raise AnalysisError(f"assignment target {dump(target)}")
 
+    def cond(self, t: ast.AST, p: Path, kind: str):
+        """Short-circuit evaluation of a branch condition: -> (paths on which it holds, paths on which it fails).
+        Guards are atomic and positive: `not`, `and`, `or` are resolved into polarities and path splits, `is not` / `!=` /
+        `not in` are recorded as the negation of `is` / `==` / `in`; so De Morgan rewrites, swapped branches and early
+        returns give the same guard sets."""
+        if isinstance(t, ast.UnaryOp) and isinstance(t.op, ast.Not):
+            a, b = self.cond(t.operand, p, kind)
+            return b, a
+        if isinstance(t, ast.BoolOp):
+            is_and = isinstance(t.op, ast.And)
+            live, done = [p], []
+            for v in t.values:
+                nxt = []
+                for q in live:
+                    a, b = self.cond(v, q, kind)
+                    if is_and:
+                        nxt += a
+                        done += b
+                    else:
+                        nxt += b
+                        done += a
+                live = nxt
+            return (live, done) if is_and else (done, live)
+        pol = True
+        if isinstance(t, ast.Compare) and len(t.ops) == 1 and isinstance(t.ops[0], (ast.IsNot, ast.NotEq, ast.NotIn)):
+            op = {ast.IsNot: ast.Is, ast.NotEq: ast.Eq, ast.NotIn: ast.In}[type(t.ops[0])]()
+            t2 = ast.Compare(left=t.left, ops=[op], comparators=t.comparators)
+            ast.copy_location(t2, t)
+            if hasattr(t, "_def_id"):
+                t2._def_id = t._def_id
+            t, pol = t2, False
+        a = p.fork()
+        a.guards.append((t, pol, kind))
+        p.guards.append((t, not pol, kind))
+        return [a], [p]
+
+    # ---- comprehensions --------------------------------------------------
+    def comps(self, p: Path, v: ast.AST) -> ast.AST:
+        """Comprehensions with one generator and no filter are brought to the form the equivalent loop has:
+        over a literal sequence they are unrolled exactly ([f(a), f(b)]); over anything else `[f(v) for v in xs]`
+        becomes the one-iteration list [f(v)] with v registered as a loop variable over xs — the value an
+        append-loop over xs gives under the walker's loop policy.  Generators over literal sequences become tuples."""
+        if v is None or not any(isinstance(n, (ast.ListComp, ast.GeneratorExp)) for n in ast.walk(v)):
+            return v
+        walker = self
+
+        class T(ast.NodeTransformer):
+            def visit_Lambda(self, node):
+                return node
+
+            def visit_DictComp(self, node):
+                return node
+
+            def visit_SetComp(self, node):
+                return node
+
+            def _one(self, node):
+                if len(node.generators) != 1 or node.generators[0].ifs or node.generators[0].is_async:
+                    return self.generic_visit(node)
+                g = node.generators[0]
+                it = self.visit(g.iter)
+                if isinstance(it, ast.Call) and attr_chain(it.func) == "zip" and it.args and not it.keywords and all(isinstance(a, (ast.List, ast.Tuple)) for a in it.args) \
+                        and len({len(a.elts) for a in it.args}) == 1:
+                    it = ast.Tuple(elts=[ast.Tuple(elts=[a.elts[i] for a in it.args], ctx=ast.Load()) for i in range(len(it.args[0].elts))], ctx=ast.Load())
+                if isinstance(it, (ast.List, ast.Tuple)) and 1 <= len(it.elts) <= 8 and not any(isinstance(x, ast.Starred) for x in it.elts):
+                    elts = []
+                    for e in it.elts:
+                        env = {}
+                        _bind(g.target, e, env)
+                        elts.append(self.visit(subst(node.elt, env)))
+                    new = ast.List(elts=elts, ctx=ast.Load()) if isinstance(node, ast.ListComp) else ast.Tuple(elts=elts, ctx=ast.Load())
+                    return ast.copy_location(new, node)
+                if isinstance(node, ast.ListComp):
+                    env = walker.bind_loop_target(p, g.target, it)
+                    elt = self.visit(subst(node.elt, env) if env else node.elt)
+                    elt._iter_of = tuple(n.id for n in ast.walk(g.target) if isinstance(n, ast.Name))
+                    p.guards.append((it, True, "for"))
+                    return ast.copy_location(ast.List(elts=[elt], ctx=ast.Load()), node)
+                return self.generic_visit(node)
+
+            visit_ListComp = _one
+            visit_GeneratorExp = _one
+        out = T().visit(v)
+        ast.fix_missing_locations(out)
+        return out
+
+    def bind_loop_target(self, p: Path, target: ast.AST, it: ast.AST) -> Dict[str, ast.AST]:
+        """registers the loop variables of `for target in it`; returns definitions for targets that are functions of
+        another loop variable:  `for k, v in d.items()` -> v := d[k], k over d;  `for i, x in enumerate(xs)` -> x := xs[i], i over range(len(xs))"""
+        env: Dict[str, ast.AST] = {}
+        two = isinstance(target, (ast.Tuple, ast.List)) and len(target.elts) == 2 and all(isinstance(t, ast.Name) for t in target.elts)
+        if two and isinstance(it, ast.Call) and isinstance(it.func, ast.Attribute) and it.func.attr == "items" and not it.args and not it.keywords:
+            k, v = target.elts[0].id, target.elts[1].id
+            d = it.func.value
+            p.env.pop(k, None)
+            p.loopvars[k] = d
+            env[v] = ast.Subscript(value=copy.deepcopy(d), slice=ast.Name(id=k, ctx=ast.Load()), ctx=ast.Load())
+        elif two and isinstance(it, ast.Call) and attr_chain(it.func) == "enumerate" and len(it.args) == 1 and not it.keywords:
+            i, x = target.elts[0].id, target.elts[1].id
+            xs = it.args[0]
+            p.env.pop(i, None)
+            p.loopvars[i] = ast.Call(func=ast.Name(id="range", ctx=ast.Load()), args=[ast.Call(func=ast.Name(id="len", ctx=ast.Load()), args=[copy.deepcopy(xs)], keywords=[])], keywords=[])
+            env[x] = ast.Subscript(value=copy.deepcopy(xs), slice=ast.Name(id=i, ctx=ast.Load()), ctx=ast.Load())
+        else:
+            for n in ast.walk(target):
+                if isinstance(n, ast.Name):
+                    p.env.pop(n.id, None)
+                    p.loopvars[n.id] = it
+        for name, val in env.items():
+            ast.fix_missing_locations(val)
+            p.env[name] = val
+            p.loopvars.pop(name, None)
+        return env
+
     def _list_method(self, p: Path, call: ast.AST):
         """`x.append(v)` / `x.extend([..])` on a local list literal keeps the list
         value up to date (so `bounds.append(...)` sequences expand to a list)."""
@@ -313,7 +431,9 @@ class Walker:
         if not isinstance(cur, ast.List) or call.keywords:
             return
         if meth == "append" and len(call.args) == 1:
-            p.env[name] = ast.List(elts=list(cur.elts) + [subst(call.args[0], p.env)], ctx=ast.Load())
+            elt = self.comps(p, subst(call.args[0], p.env))
+            elt._iter_of = p.loopstack[-1] if p.loopstack else ()  # the loop whose iterations produce this element
+            p.env[name] = ast.List(elts=list(cur.elts) + [elt], ctx=ast.Load())
         elif meth == "extend" and len(call.args) == 1:
             arg = subst(call.args[0], p.env)
             if isinstance(arg, (ast.List, ast.Tuple)):
@@ -331,19 +451,19 @@ class Walker:
 
     def stmt(self, s: ast.stmt, p: Path):
         if isinstance(s, ast.Assign):
-            v = subst(s.value, p.env)
+            v = self.comps(p, subst(s.value, p.env))
             self.ev(p, "eval", s, None, v)
             for t in s.targets:
                 self.assign(p, t, v, s)
             return [(p, FALL)]
         if isinstance(s, ast.AnnAssign):
             if s.value is not None:
-                v = subst(s.value, p.env)
+                v = self.comps(p, subst(s.value, p.env))
                 self.ev(p, "eval", s, None, v)
                 self.assign(p, s.target, v, s)
             return [(p, FALL)]
         if isinstance(s, ast.AugAssign):
-            v = subst(s.value, p.env)
+            v = self.comps(p, subst(s.value, p.env))
             cur = subst(_load(s.target), p.env)
             new = ast.BinOp(left=cur, op=s.op, right=v)
             ast.copy_location(new, s)
@@ -361,7 +481,7 @@ class Walker:
                 p.env[s.target.value.id] = ast.Call(func=ast.Name(id="__store__", ctx=ast.Load()), args=[old_v, subst(s.target.slice, p.env), new], keywords=[])
             return [(p, FALL)]
         if isinstance(s, ast.Expr):
-            v = subst(s.value, p.env)
+            v = self.comps(p, subst(s.value, p.env))
             if isinstance(s.value, (ast.Yield, ast.YieldFrom)):
                 self.ev(p, "yield", s, None, v)
             elif isinstance(s.value, ast.Constant):
@@ -371,7 +491,7 @@ class Walker:
                 self._list_method(p, s.value)
             return [(p, FALL)]
         if isinstance(s, ast.Return):
-            p.ret = subst(s.value, p.env) if s.value is not None else None
+            p.ret = self.comps(p, subst(s.value, p.env)) if s.value is not None else None
             p.ret_node = s
             if p.ret is not None:
                 self.ev(p, "eval", s, None, p.ret)
@@ -383,18 +503,18 @@ class Walker:
             return [(p, RET)]
         if isinstance(s, ast.Assert):
             t = subst(s.test, p.env)
-            p.guards.append((t, True, "assert"))
             self.ev(p, "assert", s, None, t)
-            return [(p, FALL)]
+            trues, _ = self.cond(t, p, "assert")
+            return [(a, FALL) for a in trues]
         if isinstance(s, ast.If):
             t = subst(s.test, p.env)
             self.ev(p, "eval", s, None, t)
-            a = p.fork()
-            a.guards.append((t, True, "if"))
-            b = p
-            b.guards.append((t, False, "if"))
-            out = self.block(s.body, a)
-            out += self.block(s.orelse, b)
+            trues, falses = self.cond(t, p, "if")
+            out = []
+            for a in trues:
+                out += self.block(s.body, a)
+            for b in falses:
+                out += self.block(s.orelse, b)
             return out
         if isinstance(s, (ast.For, ast.While)):
             return self.loop(s, p)
@@ -453,7 +573,7 @@ class Walker:
             z = p.fork()
             out.extend(self.block(s.orelse, z) if s.orelse else [(z, FALL)])
         if isinstance(s, ast.For):
-            it = subst(s.iter, p.env)
+            it = self.comps(p, subst(s.iter, p.env))
             self.ev(p, "eval", s, None, it)
             if isinstance(it, ast.Call) and attr_chain(it.func) == "zip" and it.args and not it.keywords and all(isinstance(a, (ast.List, ast.Tuple)) for a in it.args) \
                     and len({len(a.elts) for a in it.args}) == 1:
@@ -473,20 +593,42 @@ class Walker:
                         nxt.extend(self.block(s.body, q))
                     states = nxt
                 return out + states
-            for n in ast.walk(s.target):
-                if isinstance(n, ast.Name):
-                    p.env.pop(n.id, None)
-                    p.loopvars[n.id] = it
+            self.bind_loop_target(p, s.target, it)
             p.guards.append((it, True, "for"))
         else:
             t = subst(s.test, p.env)
             self.ev(p, "eval", s, None, t)
             p.guards.append((t, True, "while"))
         # names reassigned in the loop body that are read before assignment in
-        # the body keep their pre-loop definition for the single iteration.
+        # the body keep their pre-loop definition for the single iteration;
+        # with phi=True they become symbols (value at the start of an arbitrary iteration) instead.
+        carried = []
+        if self.phi:
+            stored = []
+            for b in s.body:
+                for n in ast.walk(b):
+                    if isinstance(n, ast.Name) and isinstance(n.ctx, ast.Store) and n.id not in stored:
+                        stored.append(n.id)
+            tnames = {n.id for n in ast.walk(s.target) if isinstance(n, ast.Name)} if isinstance(s, ast.For) else set()
+            for name in stored:
+                cur = p.env.get(name)
+                if cur is None or name in tnames or isinstance(cur, (ast.List, ast.Dict, ast.ListComp, ast.DictComp)):
+                    continue
+                if not getattr(cur, "_phi", False):
+                    p.phi[name] = cur
+                sym = ast.Name(id=name, ctx=ast.Load())
+                sym._phi = True
+                p.env[name] = sym
+                carried.append(name)
         p.loop += 1
+        p.loopstack.append(tuple(n.id for n in ast.walk(s.target) if isinstance(n, ast.Name)) if isinstance(s, ast.For) else ())
         body = self.block(s.body, p)
         for bp, st in body:
+            if bp.loopstack:
+                bp.loopstack.pop()
+            for name in carried:
+                if name in bp.env:
+                    bp.phi_next[name] = bp.env[name]
             bp.loop -= 1
             if st in (FALL, CONT):
                 if s.orelse:
@@ -500,6 +642,14 @@ class Walker:
         return out
 
 
+def _bind(target: ast.AST, value: ast.AST, env: Dict[str, ast.AST]):
+    if isinstance(target, ast.Name):
+        env[target.id] = value
+    elif isinstance(target, (ast.Tuple, ast.List)):
+        for i, t in enumerate(target.elts):
+            _bind(t, tuple_elt(value, i), env)
+
+
 def _load(t: ast.AST) -> ast.AST:
     t2 = copy.deepcopy(t)
     for n in ast.walk(t2):
@@ -508,10 +658,12 @@ def _load(t: ast.AST) -> ast.AST:
     return t2
 
 
-def paths(func_node: ast.FunctionDef, loops_zero: bool = False, expand_self: bool = True, track_stores: bool = False) -> List[Path]:
+def paths(func_node: ast.FunctionDef, loops_zero: bool = False, expand_self: bool = True, track_stores: bool = False, phi: bool = False) -> List[Path]:
     """expand_self=False: `self.attr` reads are left as written (assignments recorded as events only);
-    track_stores=True: `x[i] = v` on a local makes later uses of x depend on v"""
-    return Walker(func_node, loops_zero=loops_zero, expand_self=expand_self, track_stores=track_stores).run()
+    track_stores=True: `x[i] = v` on a local makes later uses of x depend on v;
+    phi=True: a local that is re-assigned in a loop body and defined before the loop is a symbol inside the body (its value at the
+    start of an arbitrary iteration); Path.phi[name] is its value on loop entry, Path.phi_next[name] its value after one iteration"""
+    return Walker(func_node, loops_zero=loops_zero, expand_self=expand_self, track_stores=track_stores, phi=phi).run()
 
 
 def returns(func_node: ast.FunctionDef) -> List[Path]:
